@@ -87,6 +87,11 @@ _t('yf_yy', lambda d: '%02d/%02d/%02d' % (d.year % 100, d.month, d.day), 'd', {'
 _t('dd-Mon-yy', lambda d: '%02d-%s-%02d' % (d.day, MON[d.month - 1], d.year % 100), 'd', fam='yy', yy=True, time=False)
 _t('yymmdd', lambda d: '%02d%02d%02d' % (d.year % 100, d.month, d.day), 'd', {'yearfirst': True}, fam='yy', yy=True,
    time=False)
+# date-only numeric forms (the ones C02.parse_render_numeric is about)
+_t('us_slash_date', lambda d: '%02d/%02d/%04d' % (d.month, d.day, d.year), 'd', fam='numeric', time=False)
+_t('eu_slash_date', lambda d: '%02d/%02d/%04d' % (d.day, d.month, d.year), 'd', {'dayfirst': True}, fam='numeric', time=False)
+_t('yf_slash_date', lambda d: '%04d/%02d/%02d' % (d.year, d.month, d.day), 'd', fam='numeric', time=False)
+_t('eu_yy_date', lambda d: '%02d/%02d/%02d' % (d.day, d.month, d.year % 100), 'd', {'dayfirst': True}, fam='yy', yy=True, time=False)
 TEMPLATES = list(T.values())
 
 OFFSETS = [None, 'Z', ' UTC', '+00:00', '-00:00', '+00', '-0300', '+0530', '+05:30', '-23:59', '+23:59', '-03', '+14',
